@@ -275,3 +275,109 @@ pub mod fwd_attrs_iface {
         fn attr_first(&self, ctx: ExecCtx) -> Result<Response, Self::Error>;
     }
 }
+
+/// The pre-1.0 form `#[contract(module = ...)]` on an interface implementation (MIGRATING.md): a non-empty macro argument makes
+/// `contract` generate nothing, but the impl is still re-emitted with sylvia's attributes and all parameter attributes removed.
+pub mod legacy_contract_arg {
+    use super::*;
+
+    pub struct Legacy;
+
+    /// Doc on the legacy impl.
+    #[contract(module = crate::legacy_contract_arg)]
+    #[sv::messages(crate::iface as Thing)]
+    #[allow(clippy::needless_lifetimes)]
+    impl iface::Thing for Legacy {
+        type Error = StdError;
+
+        #[sv::msg(exec)]
+        #[inline]
+        fn poke(&self, _ctx: ExecCtx, #[serde(default)] times: u8,) -> Result<Response, Self::Error> {
+            Ok(Response::new().add_attribute("times", times.to_string()))
+        }
+
+        /// Query doc.
+        #[sv::msg(query)]
+        #[sv::attr(doc = "never forwarded anywhere")]
+        fn peek(&self, _ctx: QueryCtx) -> Result<Resp, Self::Error> {
+            Ok(Resp { n: 0 })
+        }
+    }
+
+    pub struct Legacy2;
+
+    #[sylvia::contract(anything goes here)]
+    impl Legacy2 {
+        pub fn new() -> Self {
+            Self
+        }
+        #[sv::msg(instantiate)]
+        fn instantiate(&self, _ctx: InstantiateCtx, #[doc = "param attr"] _a: u32) -> StdResult<Response> {
+            Ok(Response::new())
+        }
+    }
+}
+
+/// Attributes forwarded to message kinds for which the impl block has no handler: the (empty) message types are generated all the
+/// same and must carry them; the same for an interface without handlers of a kind.
+pub mod fwd_attrs_no_handlers {
+    use super::*;
+
+    pub struct Bare;
+
+    #[contract]
+    #[sv::msg_attr(exec, doc = "b-marker-exec")]
+    #[sv::msg_attr(query, doc = "b-marker-query")]
+    #[sv::msg_attr(query, derive(PartialOrd))]
+    #[sv::msg_attr(sudo, doc = "b-marker-sudo")]
+    #[sv::msg_attr(sudo, derive(PartialOrd))]
+    #[sv::msg_attr(migrate, doc = "b-marker-migrate")]
+    #[sv::msg_attr(instantiate, doc = "b-marker-instantiate")]
+    impl Bare {
+        pub fn new() -> Self {
+            Self
+        }
+        #[sv::msg(instantiate)]
+        fn instantiate(&self, _ctx: InstantiateCtx) -> StdResult<Response> {
+            Ok(Response::new())
+        }
+    }
+
+    pub mod only_exec {
+    use super::*;
+    pub struct OnlyExec;
+
+    #[contract]
+    #[sv::msg_attr(exec, doc = "o-marker-exec")]
+    #[sv::msg_attr(query, doc = "o-marker-query")]
+    #[sv::msg_attr(sudo, derive(Eq))]
+    impl OnlyExec {
+        pub fn new() -> Self {
+            Self
+        }
+        #[sv::msg(instantiate)]
+        fn instantiate(&self, _ctx: InstantiateCtx) -> StdResult<Response> {
+            Ok(Response::new())
+        }
+        #[sv::msg(exec)]
+        fn go(&self, _ctx: ExecCtx) -> StdResult<Response> {
+            Ok(Response::new())
+        }
+    }
+    }
+
+    pub mod only_query_iface {
+        use super::*;
+
+        #[interface]
+        #[sv::custom(msg = sylvia::cw_std::Empty, query = sylvia::cw_std::Empty)]
+        #[sv::msg_attr(exec, doc = "q-marker-exec")]
+        #[sv::msg_attr(query, doc = "q-marker-query")]
+        #[sv::msg_attr(sudo, doc = "q-marker-sudo")]
+        pub trait OnlyQuery {
+            type Error: From<StdError>;
+            #[sv::msg(query)]
+            fn q(&self, ctx: QueryCtx) -> Result<Resp, Self::Error>;
+        }
+    }
+}
